@@ -23,9 +23,11 @@ RULE = ("scenario = 1-3 single-stage workflows (1-3 tasks, the flaky one at any 
         "left-behind row, queue limit below/above the message limit. A case is distinct by its canonical (spec, recorded "
         "choice list); non-trivial when it has >= 1 retry/poll round trip")
 ASSUMPTIONS = [
+    "a concurrent writer is one other client committing a context write to the same stage row right after the 1st / 2nd / 3rd "
+    "retrieve_stage call of the RunTask handler (the read-then-commit window); the handler's ConcurrencyError retry must re-read "
+    "and keep what the execution saved; the model treats such a delivery as an ordinary one (op `h`)",
     "delays and locks are made explicit: the harness rewrites deliver_at/locked_until and calls the real poll_one(), so "
     "backoff durations are not checked",
-    "one worker; ConcurrencyError retries inside the handler are not provoked",
     "the limit is the dataclass default of Message.max_attempts (read off the real class, 10): the engine reads neither the "
     "payload field nor the max_attempts column back, so no other per-message limit can occur",
     "a lost acknowledgement is realised in two ways, alternating: (a) the worker process is killed when the FIRST durable commit of "
@@ -51,6 +53,7 @@ SIG_NOT_TERMINAL = "C14:limit-not-terminal"
 SIG_REEXEC = "C14:requeued-source-reexecuted"
 
 WORLD: dict[int, dict] = {}
+_CONC_LEFT = [0]      # concurrent-writer injections left in this check run (set by run / search)
 _NEXT_CHAIN = [0]
 
 
@@ -162,6 +165,8 @@ def run_scenario(env: ProcEnv, scn: dict, rng, ctx=None, verbose: bool = False) 
     choices_out: list[list] = []
     px = scn.get("px", 0.0)
     pl = scn.get("pl", 0.0)
+    conc_budget = [min(scn.get("max_conc", 2), _CONC_LEFT[0])]    # a conflict costs ~1-3 s of hard-coded backoff in execute_atomic
+    ctx_tags: set[str] = set()
     step = 0
     violations: list[tuple[str, str]] = []
 
@@ -248,6 +253,7 @@ def run_scenario(env: ProcEnv, scn: dict, rng, ctx=None, verbose: bool = False) 
             continue
         # ---- the flaky task's RunTask --------------------------------------------------------
         n0, v0 = world["n"], stage_version(c)
+        injected = 0      # version bumps by the second client during this delivery (not the handler's)
         a_seen, m_seen = m.attempts, m.max_attempts
         c["ops"].append(op)
         try:
@@ -263,6 +269,14 @@ def run_scenario(env: ProcEnv, scn: dict, rng, ctx=None, verbose: bool = False) 
                 # the handler runs and commits; the worker dies before the processor's mark and before the ack
                 env.processor._handlers[type(m)].handle(m)
                 c["stale"].append(rid)
+            elif op == "h" and scn.get("pc", 0.0) and conc_budget[0] > 0 and (rid * 7 + step) % 100 < scn["pc"] * 100:
+                # a second client commits a write to the same stage row inside the handler's read-then-commit window:
+                # the handler's optimistic commit conflicts and must be retried ON FRESH DATA, keeping what this execution saved
+                conc_budget[0] -= 1
+                _CONC_LEFT[0] -= 1
+                injected = env.handle_with_concurrent_writer(m, scn.get("conc_k") or (1 + (rid + step) % 3), c["stage"])
+                if injected:
+                    ctx_tags.add("concurrent-writer")
             else:
                 env.handle_and_ack(m)
         except Exception as e:
@@ -274,7 +288,7 @@ def run_scenario(env: ProcEnv, scn: dict, rng, ctx=None, verbose: bool = False) 
             continue
         act = world["acts"][-1]
         saw = world["seen"][-1]
-        dv = min(stage_version(c) - v0, 1)
+        dv = min(stage_version(c) - v0 - injected, 1)
         cur = stage_ctx(c)
         res = "lost"
         for r2 in env.rows():
@@ -340,7 +354,7 @@ def run_scenario(env: ProcEnv, scn: dict, rng, ctx=None, verbose: bool = False) 
             violations.append((f"after {L} transient failures the task/stage/workflow are {fin}, expected TERMINAL", SIG_NOT_TERMINAL))
     # leftovers of cut-off / stuck chains must not leak into the next scenario
     env.ro.execute("DELETE FROM queue_messages")
-    return {"lines": lines, "violations": violations, "choices": choices_out}
+    return {"lines": lines, "violations": violations, "choices": choices_out, "tags": sorted(ctx_tags)}
 
 
 # ------------------------------------------------------------------------------------------------
@@ -374,6 +388,12 @@ def grid(ctx, rng) -> list[dict]:
                         wfs.append({"T": 1 + (n % 2), "pos": 0, "ctx": {}, "script": [f"F{upd_for(i, 1)}" for i in range(n % 4)],
                                     "dflt": "S"})
                     out.append({"qmax": L, "mode": mode, "wfs": wfs, "px": 0.0, "pl": (0.15 if n % 4 == 0 else 0.0), "tag": f"grid-k{k}"})
+    # a second client writes the stage row inside the handler's read-then-commit window, at the 1st / 2nd / 3rd read,
+    # while the task answers RUNNING with context (poll) or fails transiently with saved progress
+    for kk in (1, 2, 3):
+        for script in (["R1:1", "R2:2", "S"], ["F1:1", "F2:2", "S"]):
+            out.append({"qmax": L, "mode": "fifo", "wfs": [{"T": 1, "pos": 0, "ctx": {"0": 4}, "script": list(script), "dflt": "S"}],
+                        "px": 0.0, "pl": 0.0, "pc": 1.0, "conc_k": kk, "max_conc": 2, "tag": "grid-concurrent-writer"})
     return out
 
 
@@ -392,7 +412,8 @@ def random_scn(rng) -> dict:
         wfs.append({"T": T, "pos": rng.randrange(T), "ctx": {str(k): rng.randint(-5, 5) for k in rng.sample(range(6), rng.randint(0, 3))},
                     "script": script, "dflt": dflt})
     return {"qmax": rng.choice([10, 10, 10, 12, 3, 5]), "mode": rng.choice(["fifo", "shuffle"]), "wfs": wfs,
-            "px": rng.choice([0.0, 0.0, 0.15, 0.3]), "pl": rng.choice([0.0, 0.15, 0.3]), "tag": "random"}
+            "px": rng.choice([0.0, 0.0, 0.15, 0.3]), "pl": rng.choice([0.0, 0.15, 0.3]),
+            "pc": rng.choice([0.0, 0.0, 0.3, 0.6]), "tag": "random"}
 
 
 # ------------------------------------------------------------------------------------------------
@@ -420,7 +441,7 @@ def _run_batch(ctx, scns: list[dict], suite: str, rng) -> None:
             canon = {k: scn[k] for k in ("qmax", "mode", "wfs")}
             canon["choices"] = res["choices"]
             ctx.count(canon, nontrivial=any(rt > 0 for *_, rt in res["lines"]))
-            ctx.tag(scn.get("tag", "?").split("-k")[0], f"mode-{scn['mode']}")
+            ctx.tag(scn.get("tag", "?").split("-k")[0], f"mode-{scn['mode']}", *res.get("tags", []))
             for i, dl, il, _rt in res["lines"]:
                 inputs.append({"scenario": canon, "wf": i})
                 lines.append(dl)
@@ -456,6 +477,7 @@ def run(ctx) -> None:
 
     logging.disable(logging.CRITICAL)
     rng = ctx.rng
+    _CONC_LEFT[0] = ctx.n(18, 90)
     corpus = _corpus()
     if corpus:
         _run_batch(ctx, corpus, "retry-corpus", rng)
@@ -468,6 +490,7 @@ def search(ctx) -> None:
 
     logging.disable(logging.CRITICAL)
     rng = ctx.rng
+    _CONC_LEFT[0] = ctx.n(30, 120)
     scns = []
     for style in (0, 1):
         scns.append({"qmax": limit_of(), "mode": "fifo", "wfs": [{"T": 1, "pos": 0, "ctx": {}, "script": [], "dflt": "F" + upd_for(0, style)}],
